@@ -1,5 +1,6 @@
 import Dashu.Props.C14Link
 import Dashu.Props.C14EstNoStd
+import Dashu.Props.C14I128
 /- one audit module for the two C14 extension modules (one Lean process: import cost paid once) -/
 #print axioms Dashu.Props.C14Link.ubig_ord_mirrored
 #print axioms Dashu.Props.C14Link.ibig_ord_mirrored
@@ -30,3 +31,8 @@ import Dashu.Props.C14EstNoStd
 #print axioms Dashu.Props.C14EstNoStd.exact_arithmetic_meets_ax
 #print axioms Dashu.Props.C14EstNoStd.table_oracle_sound
 #print axioms Dashu.Props.C14EstNoStd.num_ord_exact_table_path
+#print axioms Dashu.Props.C14I128.wrapI128_id
+#print axioms Dashu.Props.C14I128.decode_small
+#print axioms Dashu.Props.C14I128.mul_range
+#print axioms Dashu.Props.C14I128.repr_num_ord_float_i128
+#print axioms Dashu.Props.C14I128.repr_num_ord_float_i128_decode
